@@ -8,6 +8,9 @@ if [ ! -x bin/vcheck ] || [ -n "$(find cmd internal go.mod -newer bin/vcheck -pr
   mkdir -p bin
   go build -o bin/vcheck ./cmd/vcheck
 fi
+if [ ! -d bin/gocache-base ]; then
+  sh ./setup.sh >/dev/null 2>&1 || true
+fi
 set +e
 # the harness itself must never exhaust the machine (no memory limit in the sandbox): 40 GB of address space
 ulimit -v 41943040 2>/dev/null
